@@ -95,6 +95,94 @@ def pair_case(r, faults=True, rounds=None, ideal=False, drain=None, use_credit=T
     return ops, stats
 
 
+def chanmix_case(r):
+    """Two channels, Unreliable / Persistent / Reliable packets interleaved, heavy frame loss, a receive() after
+    every relay: the receive window stalls behind a lost Reliable packet of one channel while the other channel
+    keeps delivering in separate receive() calls, advances partially, and old Persistent packets are resent late."""
+    c = pick_cfg(r)
+    c["W"] = r.choice([8, 16, 64, 4096])
+    c["FW"] = r.choice([64, 4096])
+    c["bw"] = r.choice([1000000, 2000000])
+    c["alloc"] = [1000000, 1000000]
+    c["ka"] = "-"
+    nsent = 0
+    ops = ["seed %d" % r.randrange(U32)] + hcnew_lines(c)
+    now = 0
+    drop = r.choice([300, 400, 500, 600])
+    chans = r.sample(range(64), 2)
+    for t in range(r.choice([30, 60, 90])):
+        now += r.choice([5, 20, 50, 100, 200])
+        e = 0 if r.random() < 0.8 else 1
+        o = 1 - e
+        for _ in range(r.choice([0, 1, 1, 2, 3])):
+            if nsent >= 250:
+                break
+            ops.append("send %d %d %d %d %d" % (e, r.choice(chans), r.choice([1, 2, 2, 3, 3]), r.choice([1, 5, 40, 100]), nsent))
+            nsent += 1
+        ops.append("step %d %d" % (e, now))
+        ops.append("credit %d 100000" % e)
+        ops.append("flush %d" % e)
+        ops.append("relay %d %d %d 0 0 %d" % (e, o, drop, r.randrange(2 ** 31)))
+        ops.append("recv %d" % o)
+        ops.append("step %d %d" % (o, now))
+        ops.append("credit %d 100000" % o)
+        ops.append("flush %d" % o)
+        ops.append("relay %d %d %d 0 0 %d" % (o, e, r.choice([0, 0, drop]), r.randrange(2 ** 31)))
+        ops.append("recv %d" % e)
+    for t in range(12):
+        now += 2500
+        for e in (0, 1):
+            ops.append("step %d %d" % (e, now))
+            ops.append("credit %d 100000" % e)
+            ops.append("flush %d" % e)
+            ops.append("relay %d %d 0 0 0 1" % (e, 1 - e))
+            ops.append("recv %d" % (1 - e))
+    return ops
+
+
+def tswin_case(r):
+    """A tiny frame window, ample byte budget, bursts of TimeSensitive / Unreliable packets whose sizes do not pack
+    evenly into frames: flushes end because the frame window is full while a frame is half built and packets
+    are still queued; acknowledgements reopen the window one step later."""
+    c = pick_cfg(r)
+    c["FW"] = r.choice([4, 4, 16])
+    c["W"] = r.choice([64, 4096])
+    c["bw"] = 2000000
+    c["alloc"] = [1000000, 1000000]
+    c["ka"] = "-"
+    nsent = 0
+    ops = ["seed %d" % r.randrange(U32)] + hcnew_lines(c)
+    now = 0
+    for t in range(r.choice([8, 15, 25])):
+        now += r.choice([1, 5, 20, 50])
+        # TimeSensitive packets are only transmitted by a flush in the same step as their send(): send after step()
+        ops.append("step 0 %d" % now)
+        for _ in range(r.choice([3, 6, 9, 14])):
+            if nsent >= 250:
+                break
+            ops.append("send 0 %d %d %d %d" % (r.randrange(3), r.choice([0, 0, 0, 1, 3]), r.choice([300, 500, 700, 724, 725, 1000, 1400, 1448, 2000]), nsent))
+            nsent += 1
+        ops.append("credit 0 1000000")
+        ops.append("flush 0")
+        if r.random() < 0.85:
+            ops.append("relay 0 1 %d 0 0 %d" % (r.choice([0, 0, 200]), r.randrange(2 ** 31)))
+        ops.append("recv 1")
+        ops.append("step 1 %d" % now)
+        ops.append("credit 1 100000")
+        ops.append("flush 1")
+        if r.random() < 0.7:
+            ops.append("relay 1 0 0 0 0 1")
+    for t in range(6):
+        now += 2500
+        for e in (0, 1):
+            ops.append("step %d %d" % (e, now))
+            ops.append("credit %d 1000000" % e)
+            ops.append("flush %d" % e)
+            ops.append("relay %d %d 0 0 0 1" % (e, 1 - e))
+            ops.append("recv %d" % (1 - e))
+    return ops
+
+
 def ackflood_case(r):
     """C13: an honest pair gets an RTT estimate, idles, then endpoint `e` is handed a few hundred data frames
     whose ids are >= 32 apart (one acknowledgement group each), so that far more acknowledgement data is owed
